@@ -235,6 +235,10 @@ HNext ==
 HSpec == HInit /\ [][HNext]_hvars
 
 RaceFree == NoRace(hb)
+\* per class of location (used to look at one class when another one is already known to race)
+RaceFreeRings == \A x \in hb.race : x[1] \notin {"ring", "steal"}
+RaceFreeWs == \A x \in hb.race : x[1] # "ws"
+RaceFreeData == \A x \in hb.race : x[1] \notin {"task", "out"}
 \* every submitted task ran exactly once when the pool is gone (so the `out` reads above are not vacuous)
 AllRanWhenDead == (~S.alive /\ AllDone) => \A k \in G.sub : G.ran[k] = 1
 =============================================================================
